@@ -16,6 +16,7 @@ import (
 	"regexp"
 	"sort"
 	"strings"
+	"sync"
 	"time"
 
 	_ "github.com/octohelm/gengo/devpkg/deepcopygen"
@@ -29,10 +30,10 @@ const genMod = "example.com/m"
 type genJob struct {
 	GoVer       string            `json:"go"`
 	Module      string            `json:"module,omitempty"`
-	Files       map[string]string `json:"files"`  // rel path → content
-	Entry       []string          `json:"entry"`  // load patterns (./p0 …)
-	Gens        []string          `json:"gens"`   // registered generator names
-	Runs        int               `json:"runs"`   // consecutive Execute runs (fresh context each)
+	Files       map[string]string `json:"files"` // rel path → content
+	Entry       []string          `json:"entry"` // load patterns (./p0 …)
+	Gens        []string          `json:"gens"`  // registered generator names
+	Runs        int               `json:"runs"`  // consecutive Execute runs (fresh context each)
 	All         bool              `json:"all,omitempty"`
 	ProbeCommon string            `json:"probe_common,omitempty"`
 	Probes      map[string]string `json:"probes,omitempty"` // package dir → probe file of package main; dropped when that package does not build
@@ -93,10 +94,6 @@ func buildPackages(dir, module string, entry []string) map[string]string {
 		// split by "# pkg" headers
 		text := string(out)
 		idx := rePkgHeader.FindAllStringSubmatchIndex(text, -1)
-		if len(idx) == 0 {
-			fails["?"] = clip(text, 800)
-			continue
-		}
 		for i, m := range idx {
 			end := len(text)
 			if i+1 < len(idx) {
@@ -105,6 +102,39 @@ func buildPackages(dir, module string, entry []string) map[string]string {
 			pkg := text[m[2]:m[3]]
 			d := strings.TrimPrefix(strings.TrimPrefix(pkg, module), "/")
 			fails[d] = clip(strings.TrimSpace(text[m[1]:end]), 800)
+		}
+		// anything outside such headers (a package that cannot even be loaded: use of an internal package, an import
+		// cycle, a missing package) is reported in other formats and stops the build of the whole list: every entry of
+		// the chunk not yet known to fail is then built on its own and blamed for whatever its own build prints
+		pre := text
+		if len(idx) > 0 {
+			pre = text[:idx[0][0]]
+		}
+		if strings.TrimSpace(pre) != "" {
+			var mu sync.Mutex
+			var wg sync.WaitGroup
+			sem := make(chan struct{}, 8)
+			for _, e := range entry[s:min(s+chunk, len(entry))] {
+				d := strings.TrimPrefix(e, "./")
+				if _, known := fails[d]; known {
+					continue
+				}
+				wg.Add(1)
+				go func(e, d string) {
+					defer wg.Done()
+					sem <- struct{}{}
+					defer func() { <-sem }()
+					c := exec.Command("go", "build", e)
+					c.Dir = dir
+					c.Env = goEnvForBuild()
+					if o, err := c.CombinedOutput(); err != nil {
+						mu.Lock()
+						fails[d] = clip(strings.TrimSpace(string(o)), 800)
+						mu.Unlock()
+					}
+				}(e, d)
+			}
+			wg.Wait()
 		}
 	}
 	return fails
